@@ -198,6 +198,10 @@ def _work(idx):
         r.error = 'scenario %d: %s' % (idx, traceback.format_exc())
     finally:
         import shutil
+        try:
+            common.harvest_coverage(wd)
+        except Exception:
+            pass
         shutil.rmtree(wd, ignore_errors=True)
     return idx, r
 
